@@ -406,6 +406,25 @@ pub fn run(run: &Run) {
             run.eval_one("builder", &c, &check);
         }
     }
+    if run.worker.0 == 1 % run.worker.1 {
+        // appender names (and references to them) that a sloppy key would conflate: hash collisions, case, a trailing
+        // line terminator, invisible characters ...
+        for (x, y) in crate::gen::cfgtree::lookalike_pairs() {
+            let (x, y) = (x.to_string(), y.to_string());
+            let lg = |name: &str, refs: Vec<&String>| RawLogger { name: name.into(), level: 4, additive: true, refs: refs.into_iter().cloned().collect() };
+            for c in [
+                // both exist: nothing to complain about
+                Case { appenders: vec![x.clone(), y.clone()], root_level: 3, root_refs: vec![y.clone(), x.clone()], loggers: vec![lg("a", vec![&y]), lg("b", vec![&x])], targets: vec!["a".into(), "b::c".into(), "z".into()] },
+                // only one exists: every reference to the other one dangles
+                Case { appenders: vec![x.clone()], root_level: 3, root_refs: vec![y.clone()], loggers: vec![lg("a", vec![&x, &y]), lg("b", vec![&y])], targets: vec!["a".into(), "b".into(), "z".into()] },
+                Case { appenders: vec![y.clone(), "A0".into()], root_level: 3, root_refs: vec![x.clone(), y.clone()], loggers: vec![lg("a", vec![&x])], targets: vec!["a::x".into(), "z".into()] },
+                // a genuine duplicate next to a look-alike
+                Case { appenders: vec![x.clone(), y.clone(), x.clone()], root_level: 3, root_refs: vec![x.clone()], loggers: vec![lg("a", vec![&y])], targets: vec!["a".into(), "z".into()] },
+            ] {
+                run.eval_one("builder", &c, &check);
+            }
+        }
+    }
     run.search("builder", run.tier.pick(5_000, 300_000), strategy(), &check);
 }
 
@@ -419,7 +438,7 @@ pub fn replay(part: &str, case: serde_json::Value) -> Option<CaseResult> {
 pub fn meta() -> EvidenceMeta {
     EvidenceMeta {
         level: "exploration",
-        rule: "cases = builder inputs: multiset of appender names over a 4-name pool (duplicates likely, each occurrence a distinguishable capture appender), 0-6 loggers whose names come from strings over {a,b,:}, concatenations of components (incl. letters whose code point ends in the byte 0x3A, like U+043A) and colon runs, well-formed paths, and duplicates of earlier names with different content; references drawn from pool + 2 nonexistent names with repeats; plus the exhaustive sweep of all 3280 names over {a,b,:} up to length 7. Oracle: name validity written from the statement (non-empty, every colon run of length exactly 2, none trailing; runs of even length >= 4 are unsettled: either outcome accepted); build() Ok iff no offence; every reported error names a real offence of its kind (counted) and every offending item is covered; build_lossy's Config accessors equal the valid part (first occurrence wins, dangling references stripped, original order); every returned Config is installed and probed under catch_unwind and deliveries equal route() on the valid part, from first-occurrence appenders only. Appender names include the empty string and a blank; the builders are reached through Config::builder() / ConfigBuilder::default(), Logger::builder() / LoggerBuilder::default() and mixes of singular and bulk calls; two fixed inputs carry 400 / 1000+ offending items. non-trivial = >=2 offence kinds, or an invalid name of length >=3 containing '::', or a duplicate whose second occurrence differs".into(),
+        rule: "cases = builder inputs: multiset of appender names over a 4-name pool (duplicates likely, each occurrence a distinguishable capture appender), 0-6 loggers whose names come from strings over {a,b,:}, concatenations of components (incl. letters whose code point ends in the byte 0x3A, like U+043A) and colon runs, well-formed paths, and duplicates of earlier names with different content; references drawn from pool + 2 nonexistent names with repeats; plus the exhaustive sweep of all 3280 names over {a,b,:} up to length 7. Oracle: name validity written from the statement (non-empty, every colon run of length exactly 2, none trailing; runs of even length >= 4 are unsettled: either outcome accepted); build() Ok iff no offence; every reported error names a real offence of its kind (counted) and every offending item is covered; build_lossy's Config accessors equal the valid part (first occurrence wins, dangling references stripped, original order); every returned Config is installed and probed under catch_unwind and deliveries equal route() on the valid part, from first-occurrence appenders only. Appender names include the empty string and a blank; the builders are reached through Config::builder() / ConfigBuilder::default(), Logger::builder() / LoggerBuilder::default() and mixes of singular and bulk calls; two fixed inputs carry 400 / 1000+ offending items; fixed inputs over look-alike appender names and references (published hash collisions, case, trailing line terminators, invisible characters). non-trivial = >=2 offence kinds, or an invalid name of length >=3 containing '::', or a duplicate whose second occurrence differs".into(),
         assumptions: vec!["a colon run of even length >= 4 ('a::::b') is not settled by the statement; both outcomes are accepted and counted".into()],
         mutants_caught: vec![],
     }
